@@ -330,6 +330,14 @@ def array_nesting(n):
     return max([array_nesting_ty(t) for t in n[4]] + [array_nesting(k) for k in n[5]] + [0])
 
 
+def exc_shape(err, default="exception-cli"):
+    """Names the one internal failure of the unchanged tree that is a recorded finding (known_findings.json); everything else
+    keeps the general kind."""
+    if "You have to implement has_type_variables()" in err and ("_gen_matching_class" in err or "generator.py:28" in err):
+        return "nothing-typed-expression-requested"
+    return default
+
+
 def run(tier, seed, replay=None):
     rep = C.Report("C18", tier, seed, "proof")
     C.setup_repo_import(seed, ["hephaestus.py", "--iterations", "1", "--language", "kotlin"])
@@ -532,7 +540,7 @@ def run(tier, seed, replay=None):
         sd = C.sub_seed(seed, "c18cli", k) % 100000
         cmd = [_sys.executable, os.path.join(C.VERIF, "harness", "c18_cli.py"), lang, str(n), str(sd)] + flags
         try:
-            pr = _sp.run(cmd, env=env, stdout=_sp.PIPE, stderr=_sp.STDOUT, text=True, timeout=60 * n + 600, cwd=tempfile.gettempdir())
+            pr = _sp.run(cmd, env=env, stdout=_sp.PIPE, stderr=_sp.STDOUT, text=True, timeout=45 * n + 600, cwd=tempfile.gettempdir())
         except _sp.TimeoutExpired:
             return lang, n, flags, sd, None, "did not finish within %d s" % (60 * n + 600)
         for line in pr.stdout.splitlines():
@@ -540,7 +548,7 @@ def run(tier, seed, replay=None):
                 return lang, n, flags, sd, _json.loads(line[7:]), None
         return lang, n, flags, sd, None, "session died: " + pr.stdout[-800:]
     t1 = time.time()
-    cli_programs, cli_fail, cli_hist = 0, 0, {}
+    cli_programs, cli_fail, cli_hist, cli_slow = 0, 0, {}, 0
     with _cf.ThreadPoolExecutor(max_workers=min(8, C.NPROC)) as ex:
         for lang, n, flags, sd, out_, err_ in ex.map(cli, list(enumerate(plan))):
             key = "%s %s" % (lang, " ".join(flags))
@@ -550,13 +558,14 @@ def run(tier, seed, replay=None):
                               dict(lang=lang, programs=n, flags=flags, seed=sd, error=err_, shape="cli-session"))
                 continue
             cli_programs += out_["programs"]
+            cli_slow += len(out_.get("over_limit", []))
             cli_hist[key] = out_["programs"]
             for f_ in out_["failures"][:2]:
                 cli_fail += 1
                 last = [l_ for l_ in f_["error"].splitlines() if l_.strip()][-1:] or [""]
-                rep.violation("exception-cli", "%s with %s: program %d of the session (seed %d) made the tool fail: %s"
+                rep.violation(exc_shape(f_["error"]), "%s with %s: program %d of the session (seed %d) made the tool fail: %s"
                               % (lang, " ".join(flags), f_["pid"], sd, last[0][:200]),
-                              dict(lang=lang, flags=flags, session_seed=sd, pid=f_["pid"], error=f_["error"], shape="cli-exception",
+                              dict(lang=lang, flags=flags, session_seed=sd, pid=f_["pid"], error=f_["error"], shape=exc_shape(f_["error"]),
                                    replay="harness/c18_cli.py %s %d %d %s" % (lang, n, sd, " ".join(flags))))
     t_cli = time.time() - t1
     if scheme_err is not None:
@@ -582,11 +591,12 @@ def run(tier, seed, replay=None):
         rep.violation("nesting", "%s max_depth=%d seed %d: %d composite nodes on one path, the proved bound is %d" % (lang, md, sd, cd, bound),
                       dict(lang=lang, max_depth=md, seed=sd, nesting=cd, bound=bound))
     for f in failures:
-        rep.violation("exception", "%s max_depth=%d seed %d: stage '%s' raised %s at %s" % (f["lang"], f["max_depth"], f["seed"], f["stage"],
-                                                                                            f["error"], f["where"]), f)
+        sh_ = exc_shape(f["error"] + " " + " ".join(f["where"]), "exception")
+        rep.violation(sh_, "%s max_depth=%d seed %d: stage '%s' raised %s at %s" % (f["lang"], f["max_depth"], f["seed"], f["stage"],
+                                                                                    f["error"], f["where"]), dict(f, shape=sh_))
     if not proof_ok and not rep.violations:
         rep.violation("proof", rep.proof_broken, dict(broken=rep.proof_broken), no_input=True)
-    rep.add(cli_sessions=len(plan), cli_programs=cli_programs, cli_failures=cli_fail, cli_sessions_histogram=cli_hist, cli_s=round(t_cli, 1),
+    rep.add(cli_sessions=len(plan), cli_programs=cli_programs, cli_failures=cli_fail, cli_programs_abandoned_after_the_time_limit=cli_slow, cli_sessions_histogram=cli_hist, cli_s=round(t_cli, 1),
             cli_rule="sessions of the real driver code in separate processes: options parsed by src/args.py, per program what hephaestus._run "
                      "does (reset_word_pool per batch of 10, gen_program = generate + transformation schedule + fault injection + translation "
                      "+ saving), random stream seeded per program; up to 125 programs in one process")
